@@ -108,6 +108,7 @@ func runC16(c *core.Ctx) {
 	if m := c.Prog.LookupMethod("smgp", "Options", "TP_udhi"); m != nil {
 		if sf := c.Prog.SSAFunc(m); sf != nil {
 			checkSites(c, "C16-ACCESSOR", []*ssa.Function{sf})
+			tpUdhiRule(c, sf)
 		}
 	} else {
 		c.Broken("C16-ACCESSOR", "smgp.Options.TP_udhi", "accessor not found")
@@ -1328,4 +1329,143 @@ func addRule(c *core.Ctx, rel, typ string) {
 	if found == 0 {
 		c.Broken("C16-ADD", rel+"."+typ, "no mutating method found")
 	}
+}
+
+// tpUdhiRule (C16-ACCESSOR #value): Options.TP_udhi answers the first octet of the TP_udhi option's value whenever the
+// option is present with a non-empty value, and 0 exactly otherwise. On every path: a non-constant result is value[0] of
+// the entry looked up under TAG_TP_udhi; the constant result is 0 and is given only where the entry was found absent or
+// its value found empty (a stronger test - len > 1 - hides a present one-octet value).
+func tpUdhiRule(c *core.Ctx, fn *ssa.Function) {
+	key := "smgp.Options.TP_udhi#value"
+	pos := c.Prog.Pos(fn.Pos())
+	ps, err := paths.Enumerate(fn, paths.Config{})
+	if err != nil {
+		c.Unknown("C16-ACCESSOR", key, pos, "path enumeration failed: "+err.Error())
+		return
+	}
+	tag, _ := constIntOf(c.Prog.Pkg("smgp").Types, "TAG_TP_udhi")
+	var problems []string
+	sawValue, sawZero := false, false
+	isTagLookup := func(v ssa.Value) bool {
+		lk, ok := v.(*ssa.Lookup)
+		if !ok {
+			return false
+		}
+		k, ok := constInt(lk.Index)
+		return ok && k == tag && lk.X == ssa.Value(fn.Params[0])
+	}
+	// the value slice of the entry: Field(value) of Extract#0 of the lookup (or of the plain lookup)
+	isEntry := func(v ssa.Value) bool {
+		if ex, ok := v.(*ssa.Extract); ok && ex.Index == 0 {
+			return isTagLookup(ex.Tuple)
+		}
+		return isTagLookup(v)
+	}
+	isEntryValue := func(v ssa.Value) bool {
+		// the entry spilled to a local (its field address is taken): a load of &local.value, the local written once with the entry
+		if ld, ok := v.(*ssa.UnOp); ok && ld.Op == token.MUL {
+			if fa, ok := ld.X.(*ssa.FieldAddr); ok {
+				al, isAl := fa.X.(*ssa.Alloc)
+				st, _ := al.Type().Underlying().(*types.Pointer).Elem().Underlying().(*types.Struct)
+				if !isAl || st == nil || st.Field(fa.Field).Name() != "value" || al.Referrers() == nil {
+					return false
+				}
+				stores := 0
+				good := false
+				for _, r := range *al.Referrers() {
+					if s, ok := r.(*ssa.Store); ok && s.Addr == ssa.Value(al) {
+						stores++
+						good = isEntry(s.Val)
+					}
+				}
+				return stores == 1 && good
+			}
+			return false
+		}
+		f, ok := v.(*ssa.Field)
+		if !ok {
+			return false
+		}
+		st, _ := f.X.Type().Underlying().(*types.Struct)
+		if st == nil || st.Field(f.Field).Name() != "value" {
+			return false
+		}
+		if ex, ok := f.X.(*ssa.Extract); ok && ex.Index == 0 {
+			return isTagLookup(ex.Tuple)
+		}
+		return isTagLookup(f.X)
+	}
+	for _, p := range ps {
+		if p.Aborted != "" || len(p.Results) != 1 {
+			problems = append(problems, "path not analysable: "+p.Aborted)
+			continue
+		}
+		absent, empty := false, false
+		for _, e := range p.Events {
+			if e.Kind != paths.EvBranch {
+				continue
+			}
+			if ex, ok := e.Cond.(*ssa.Extract); ok && ex.Index == 1 && isTagLookup(ex.Tuple) {
+				if !e.Taken {
+					absent = true
+				}
+				continue
+			}
+			bo, ok := e.Cond.(*ssa.BinOp)
+			if !ok {
+				continue
+			}
+			x, y, op := bo.X, bo.Y, bo.Op
+			if _, isK := x.(*ssa.Const); isK {
+				x, y = y, x
+				op = map[token.Token]token.Token{token.LSS: token.GTR, token.GTR: token.LSS, token.LEQ: token.GEQ, token.GEQ: token.LEQ, token.EQL: token.EQL, token.NEQ: token.NEQ}[op]
+			}
+			if !e.Taken {
+				op = map[token.Token]token.Token{token.LSS: token.GEQ, token.GEQ: token.LSS, token.GTR: token.LEQ, token.LEQ: token.GTR, token.EQL: token.NEQ, token.NEQ: token.EQL}[op]
+			}
+			call, isC := x.(*ssa.Call)
+			k, isK := constInt(y)
+			if !isC || !isK {
+				continue
+			}
+			if bi, isB := call.Call.Value.(*ssa.Builtin); !isB || bi.Name() != "len" || !isEntryValue(call.Call.Args[0]) {
+				continue
+			}
+			// what is known about len(value) now: op k
+			if (op == token.EQL && k == 0) || (op == token.LSS && k == 1) || (op == token.LEQ && k == 0) {
+				empty = true
+			}
+		}
+		if kc, ok := p.Results[0].(*ssa.Const); ok {
+			sawZero = true
+			if v, _ := constInt(kc); v != 0 {
+				problems = append(problems, fmt.Sprintf("the answer for a missing or empty option is %d, not 0", v))
+			}
+			if !absent && !empty {
+				problems = append(problems, "0 is answered on a path where the option was neither found absent nor its value found empty: a present value is hidden")
+			}
+			continue
+		}
+		// value[0]
+		ok := false
+		if idx, isI := p.Results[0].(*ssa.UnOp); isI && idx.Op == token.MUL {
+			if ia, isIA := idx.X.(*ssa.IndexAddr); isIA && isEntryValue(ia.X) {
+				if k, isK := constInt(ia.Index); isK && k == 0 {
+					ok = true
+				}
+			}
+		}
+		if ok {
+			sawValue = true
+		} else {
+			problems = append(problems, "a path answers "+p.Results[0].String()+", which is not the first octet of the TP_udhi entry's value")
+		}
+	}
+	if !sawValue {
+		problems = append(problems, "no path answers the first octet of the value")
+	}
+	if !sawZero {
+		problems = append(problems, "no path answers 0 for a missing option")
+	}
+	c.Decide(len(problems) == 0, "C16-ACCESSOR", key, pos, fmt.Sprintf("%d paths: value[0] of the TAG_TP_udhi entry, 0 exactly where absent or empty", len(ps)), strings.Join(dedup(problems), "; "))
 }
